@@ -821,7 +821,10 @@ BAD_FRAGMENTS = ['a + b', '-a', 'a < b', 'f(a)', 'a if b else c', 'a ^ b', '2', 
                  'a != b', 'a <= b', 'a > b', 'a >= b', 'a in b', 'a not in b', 'a is not b', 'a < b < c', 'a == b == c',
                  'a != b != c', 'a <= b <= c', 'a == b != c', 'a < b == c', '0 <= a', 'a != 1', 'a == (b != c)',
                  'a << b', 'a // b', 'a % b', 'a ** b', 'a / b', '{a}', '{a: b}', 'a, ', '()', '...', "f'{a}'",
-                 'a[b:c]', '[a for a in b]', 'a & b < c', '~a == b', '1 == 1', 'a <= 1 & b']
+                 'a[b:c]', '[a for a in b]', 'a & b < c', '~a == b', '1 == 1', 'a <= 1 & b',
+                 # numbers that are EQUAL to 0 or 1 without being the Boolean constants (regression corpus of fix d96627e: '0.0' was
+                 # accepted and, as first creator of the terminal, made its value a float, after which every ^ raised TypeError)
+                 '0.0', '1.0', '0j', '1e0', '1.', '0.5', '0e0', '1 + 0j', '1_0', '1.0j', '00.0']
 BAD_TEXTS = ['a <', '', '(a & b', 'a & b)', 'a &', 'a b', '~', 'a | | b', 'a & (b | c', ')a(', 'a and', 'not', 'a $ b',
              'a ? b', '((a)', 'a &\n& b', 'a &\n b', 'a\nb', 'a & b\nc', 'a\n  & b',
              'not a < b', 'not a != b and c', 'a := b', '*a', 'a !== b', 'a <> b', 'a =< b', 'a => b', 'a not b', 'a is', 'a < < b', 'a !b']
